@@ -38,6 +38,12 @@ check("C13",
       "TLA+ spec (QPool) model-checked with TLC incl. as-coded vacuity witness; replay of TLC-emitted transition graphs (edge cover + seeded long walks) into the implementation against a fresh-world oracle",
       "DESIGN.md §4 C13")
 
+check("C08",
+      "TLC model-checks QTomo on every configuration (four tomography types x tester sets incl. over-complete, deficient and mixed-outcome-count ones x schedule variants all/subset/permuted-with-repetition x both flags x m): the exact rational forward model (A, b), built from the QIndex layouts, satisfies A v + b = circuit statistics computed independently through the rebuilt object on an affine basis of variable space (origin, origin + e_k, a dense vector) and on the physical catalogue, has one column per variable and is normalised on the constraint. Binding: the testers are concretised from the emitted H-coordinates, the four tomography classes are constructed with the emitted schedules, calc_matA / calc_vecB are compared entry by entry with (A, b), num_variables and is_fullrank_matA with NumVar and the exact rational rank, and generate_prob_dists_sequence / calc_prob_dists / calc_prob_dist on the physical catalogue with the exact distributions per schedule.",
+      "Trusted: QObjects catalogue (derived in TLA+ from kets / Kraus operators), coordinate scaling c_a = x_a sqrt(nu_a) in harness/coords.py; 1-qubit configurations (qutrit in thorough).",
+      "TLA+ spec (QTomo over exact rationals) model-checked with TLC; replay of TLC-emitted configurations and exact (A, b) into the implementation",
+      "DESIGN.md §4 C08")
+
 ALL = ["C%02d" % i for i in range(1, 21)]
 
 def main():
